@@ -1114,7 +1114,7 @@ void run_fit(vf::ctx_t& c)
         const auto max_rounds = rng.integer(10, 24);
         const auto patience   = rng.integer(1, 5);
         const auto epsilon    = rng.loguniform(1e-8, 1e-2);
-        const auto shrinkage  = rng.pick(std::vector<gboost_shrinkage>{gboost_shrinkage::off, gboost_shrinkage::off, gboost_shrinkage::global, gboost_shrinkage::local});
+        const auto shrinkage  = rng.pick(std::vector<gboost_shrinkage>{gboost_shrinkage::off, gboost_shrinkage::off, gboost_shrinkage::global, gboost_shrinkage::global, gboost_shrinkage::local});
         const auto subsample  = rng.pick(std::vector<gboost_subsample>{gboost_subsample::off, gboost_subsample::off, gboost_subsample::subsample, gboost_subsample::bootstrap,
                                                                         gboost_subsample::wei_loss_bootstrap, gboost_subsample::wei_grad_bootstrap});
         const auto wscale     = rng.pick(std::vector<gboost_wscale>{gboost_wscale::gboost, gboost_wscale::tboost});
